@@ -946,10 +946,11 @@ pub fn run_property(prop: &'static str, cfg: &Config) -> PropRun {
         }
         "C16" => {
             let ex = Explorer::new(cfg.threads, cfg.cap_s, if cfg.tier == Tier::Quick { 28 } else { 33 });
-            let sp = filter_spaces(
-                cfg,
-                spaces::shrink(spaces::sigma_spaces(&["S1", "S2", "S3", "S4", "S5", "S9"], cfg.tier), 1),
-            );
+            // every input is lexed once per case variant (about 4 + number of letters times):
+            // the three macro/string alphabets run at the full depth of the tier, the others one less
+            let mut sp = spaces::sigma_spaces(&["S1", "S2", "S4"], cfg.tier);
+            sp.extend(spaces::shrink(spaces::sigma_spaces(&["S3", "S5", "S9"], cfg.tier), 1));
+            let sp = filter_spaces(cfg, sp);
             let mut report = ex.run(
                 &sp,
                 |local: &mut Local, node: &Node| {
@@ -978,7 +979,7 @@ pub fn run_property(prop: &'static str, cfg: &Config) -> PropRun {
             report.distinct_nontrivial = ex.distinct_nontrivial.load(std::sync::atomic::Ordering::Relaxed);
             PropRun {
                 report,
-                rule: "every word of <= N-1 atoms x {lower, UPPER, alternating (2 phases), every single-letter flip}; every keyword/mnemonic/suffix/hex/exponent spelling x all 2^n case variants alone and in host contexts; non-trivial = input contains an ASCII letter".into(),
+                rule: "every word of <= N atoms (S1, S2, S4) resp. <= N-1 atoms (S3, S5, S9) x {lower, UPPER, alternating (2 phases), every single-letter flip}; every keyword/mnemonic/suffix/hex/exponent spelling x all 2^n case variants alone and in host contexts; non-trivial = input contains an ASCII letter".into(),
                 oracle: "dump(variant) == dump(original) except literal buffer text compared under ASCII case folding".into(),
             }
         }
